@@ -1,0 +1,35 @@
+//go:build verif
+
+package staking
+
+import (
+	beacon "github.com/oasisprotocol/oasis-core/go/beacon/api"
+	"github.com/oasisprotocol/oasis-core/go/consensus/cometbft/api"
+	stakingState "github.com/oasisprotocol/oasis-core/go/consensus/cometbft/apps/staking/state"
+	staking "github.com/oasisprotocol/oasis-core/go/staking/api"
+)
+
+// Verification hooks (build tag "verif" only): exported wrappers around the
+// package-private escrow transaction handlers and the epoch-change handler.
+// No behaviour change.
+
+// VerifNewApplication creates a staking application bound to the given
+// application state (as the package's own tests do).
+func VerifNewApplication(state api.ApplicationState) *Application {
+	return &Application{state: state}
+}
+
+// VerifAddEscrow calls addEscrow.
+func (app *Application) VerifAddEscrow(ctx *api.Context, st *stakingState.MutableState, e *staking.Escrow) (*staking.AddEscrowResult, error) {
+	return app.addEscrow(ctx, st, e, false)
+}
+
+// VerifReclaimEscrow calls reclaimEscrow.
+func (app *Application) VerifReclaimEscrow(ctx *api.Context, st *stakingState.MutableState, r *staking.ReclaimEscrow) (*staking.ReclaimEscrowResult, error) {
+	return app.reclaimEscrow(ctx, st, r, false)
+}
+
+// VerifOnEpochChange calls onEpochChange.
+func (app *Application) VerifOnEpochChange(ctx *api.Context, epoch beacon.EpochTime) error {
+	return app.onEpochChange(ctx, epoch)
+}
